@@ -114,13 +114,13 @@ Definition prim_fn (p : prim) (vs : list Z) : Z :=
   | PConcatMSBF r ins => ConcatenateMSBF_propagate (snd r) (combine (map snd ins) vs)
   | PConcatLSBF r ins => ConcatenateLSBF_propagate (snd r) (combine (map snd ins) vs)
   | PRepeat r _ => Repeat_propagate (snd r) (v 0%nat)
-  | PXor2 r a b => Xor2_m (snd a) (snd b) (snd r) (v 0%nat) (v 1%nat)
+  | PXor2 r a b => Xor2_m mid_a (snd a) (snd b) (snd r) (v 0%nat) (v 1%nat)     (* under the guard r <= a every width policy of C08 agrees *)
   | PNand2 r a _ => Nand2_m (snd a) (snd r) (v 0%nat) (v 1%nat)
   | PNor2 r a _ => Nor2_m (snd a) (snd r) (v 0%nat) (v 1%nat)
   | PAnd r _ => And_m (snd r) vs
   | POr r _ => Or_m (snd r) vs
   | PNor r ins => Nor_m (match ins with x :: _ => snd x | [] => 0 end) (snd r) vs
-  | PEqual r a b => Equal_m (snd a) (snd b) (v 0%nat) (v 1%nat)
+  | PEqual r a b => Equal_m mid_a eqw_a (snd a) (snd b) (v 0%nat) (v 1%nat)     (* equal operand widths (guard): likewise *)
   | PEqualConst r a k => EqualConstant_m (snd a) (snd r) k (v 0%nat)
   | PDiv r _ _ => Div_propagate (snd r) 0 (v 0%nat) (v 1%nat)                  (* rnd := 0 = a / 0 of VSem *)
   | PMod r _ _ => if v 1%nat =? 0 then Wire_put (snd r) (v 0%nat)              (* a % 0 of VSem (Z.rem a 0 = a) *)
@@ -178,9 +178,11 @@ Definition reg_leaf (g : reginst) : sleaf Reg_state :=
   {| s_in := map fst (reg_ins g); s_out := [fst (rg_q g)];
      s_f := fun st vs => let '(st', q) := reg_clock g st vs in (st', [Some q]) |}.
 
+(* BodyReg tests `e == 1`, Reg.clock loads when e != 0: equal for a 1-bit enable only (finding reg-wide-enable) *)
+Definition enable_ok (g : reginst) : bool := match rg_e g with Some e => snd e =? 1 | None => true end.
 Definition reg_wf (g : reginst) : bool :=
   (0 <? snd (rg_q g)) && (snd (rg_rq g) =? snd (rg_q g)) && (0 <? snd (rg_d g)) &&
-  (match rg_e g with Some e => snd e =? 1 | None => true end) &&
+  (match rg_e g with Some e => 0 <? snd e | None => true end) && enable_ok g &&
   (match rg_r g with Some r => 0 <? snd r | None => true end) &&
   (- 2 ^ 31 <? rg_rv g) && (rg_rv g <? 2 ^ 31).
 
